@@ -97,6 +97,11 @@ def gen_case(rng, tier, avoid):
                 rc2['dtype'] = {'f4': '<f8', 'u1': '<u2', 'i2': '<i4'}.get(rc2['dtype'][1:], rc2['dtype'])
             arrays.append([dn or nm, rc2])
         w2 = {'path': 'out2.dlis', 'output_chunk_size': 1 << 20, 'data': {'kind': 'dict', 'arrays': arrays}}
+        if rng.random() < 0.4:
+            # in between, the caller makes an assignment that is rejected and carries on
+            bop = gen.rejected_assignment(rng, [o for o in ops if o.get('op') == 'add'], p_channel=0.9)
+            if bop:
+                writes.append(bop)
         writes.append(w2)
     return {'scenario': {'env': {'tz': 'UTC'}, 'history': ops}, 'params': {'writes': writes, 'source': kind}}
 
@@ -106,7 +111,7 @@ def check_case(case, ex):
     fid = C.fid_of(hist)
     stats = C.new_stats(case)
     out = []
-    wops = [dict({'op': 'write', 'fid': fid}, **w) for w in case['params']['writes']]
+    wops = [dict({'op': 'write', 'fid': fid}, **w) if 'op' not in w else w for w in case['params']['writes']]
     sc, res = C.run(case, ex, wops, stats)
     m = M.build(sc['history'], res['steps'])
     n0 = len(hist)
@@ -114,13 +119,19 @@ def check_case(case, ex):
         [rc['shape'][0] for w in case['params']['writes'][:1] for _, rc in (w.get('data', {}).get('arrays') or
                                                                           w.get('data', {}).get('fields') or
                                                                           w.get('data', {}).get('datasets') or [])] or [1])
+    kw = 0
     for k, wop in enumerate(wops):
         st = res['steps'][n0 + k]
+        if wop['op'] != 'write':
+            if st is not None and st.get('out') == 'exc':
+                C.bump(stats['probes'], 'rejected_assignment_between_writes')
+            continue
+        kw += 1
         if st is None or st.get('out') != 'ok' or st.get('file') is None:
-            C.bump(stats['probes'], 'valid_spec_rejected' if C.rejected_for_size(st) else 'write_%d_failed' % (k + 1))
+            C.bump(stats['probes'], 'valid_spec_rejected' if C.rejected_for_size(st) else 'write_%d_failed' % kw)
             continue
         dec = rp66.decode_file(st['file'])
-        fp = {'source': case['params']['source'], 'write_no': k + 1, 'ics': C.ics_class(wop.get('input_chunk_size'), rows)}
+        fp = {'source': case['params']['source'], 'write_no': kw, 'ics': C.ics_class(wop.get('input_chunk_size'), rows)}
         v, s = I.rows(m, dec, fid, wop, extra_fp=fp)
         out.extend(v)
         if not v:
@@ -131,7 +142,7 @@ def check_case(case, ex):
         C.bump(stats['probes'], 'source_' + case['params']['source'])
         C.bump(stats['probes'], 'ics_' + fp['ics'])
         ics = wop.get('input_chunk_size')
-        if (ics is not None and ics < rows) or k > 0:
+        if (ics is not None and ics < rows) or kw > 1:
             stats['nontrivial'] = True
-        stats['state_sigs'].append('%s|%s|w%d|r%d' % (fp['source'], fp['ics'], k + 1, min(rows // 8, 9)))
+        stats['state_sigs'].append('%s|%s|w%d|r%d' % (fp['source'], fp['ics'], kw, min(rows // 8, 9)))
     return {'violations': out, 'stats': stats}
